@@ -1,14 +1,456 @@
-(* C06 — lemmas about the AVL model *)
-From Coq Require Import ZArith List Bool Lia.
+(* C06 — lemmas about the AVL model, part 1: listings, rotations, insertion, find, height bound *)
+From Coq Require Import ZArith List Bool Lia ZifyBool Permutation.
 From Zix Require Import AvlSpec AvlModel.
 Import ListNotations.
 Local Open Scope Z_scope.
+Ltac Zify.zify_post_hook ::= Z.div_mod_to_equations.
+
+(* ------------------------------------------------------------------ the AVL invariant *)
+Fixpoint avl (t : tree) : Prop :=
+  match t with
+  | E => True
+  | N _ _ b l r => avl l /\ avl r /\ b = height r - height l /\ -1 <= b <= 1
+  end.
 
 Lemma height_nonneg : forall t, 0 <= height t.
 Proof. induction t; cbn [height]; lia. Qed.
 
+Lemma height_pos : forall i d b l r, 1 <= height (N i d b l r).
+Proof. intros. cbn [height]. pose proof (height_nonneg l). pose proof (height_nonneg r). lia. Qed.
+
+Lemma height_E : forall t, height t = 0 -> t = E.
+Proof. destruct t; [reflexivity|]. intros H. pose proof (height_pos id d bal t1 t2). lia. Qed.
+
+Lemma heightn_height : forall t, height t = Z.of_nat (heightn t).
+Proof. induction t; cbn [height heightn]; lia. Qed.
+
+Lemma count_length : forall t, count t = Z.of_nat (length (elems t)).
+Proof.
+  induction t; cbn [count elems]; [reflexivity|].
+  rewrite app_length. cbn [length]. lia.
+Qed.
+
+Lemma count_nonneg : forall t, 0 <= count t.
+Proof. intros. rewrite count_length. lia. Qed.
+
+Lemma is_E_true : forall t, is_E t = true -> t = E.
+Proof. destruct t; [reflexivity|discriminate]. Qed.
+
+(* ------------------------------------------------------------------ rotations keep the listing *)
+(* (a,b,c) = (a',b',c') without the normalisation done by injection *)
+Ltac inj3 H :=
+  let H1 := fresh in let H2 := fresh in let H3 := fresh in
+  apply pair_equal_spec in H; destruct H as [H H3];
+  apply pair_equal_spec in H; destruct H as [H1 H2];
+  match type of H1 with _ = ?v => subst v end;
+  match type of H2 with _ = ?v => subst v end;
+  match type of H3 with _ = ?v => subst v end.
+
+Ltac list_norm := cbn [elems]; repeat (rewrite <- app_assoc; cbn [app]); try reflexivity.
+
+Lemma rotate_left_elems : forall t, elems (fst (fst (rotate_left t))) = elems t.
+Proof. intros [|p dp bp lp [|q dq bq lq rq]]; cbn [rotate_left fst]; list_norm. Qed.
+
+Lemma rotate_right_elems : forall t, elems (fst (fst (rotate_right t))) = elems t.
+Proof. intros [|p dp bp [|q dq bq lq rq] rp]; cbn [rotate_right fst]; list_norm. Qed.
+
+Lemma rotate_left_right_elems : forall t, elems (fst (fst (rotate_left_right t))) = elems t.
+Proof.
+  intros [|p dp bp [|q dq bq lq [|r dr br lr rr]] rp]; cbn [rotate_left_right fst]; list_norm.
+Qed.
+
+Lemma rotate_right_left_elems : forall t, elems (fst (fst (rotate_right_left t))) = elems t.
+Proof.
+  intros [|p dp bp lp [|q dq bq [|r dr br lr rr] rq]]; cbn [rotate_right_left fst]; list_norm.
+Qed.
+
+Lemma rebalance_elems : forall t, elems (fst (fst (rebalance t))) = elems t.
+Proof.
+  intros [|i d b l r]; [reflexivity|]. unfold rebalance.
+  destruct (b =? -2).
+  - destruct (bal_of l =? 1); [apply rotate_left_right_elems | apply rotate_right_elems].
+  - destruct (b =? 2); [|reflexivity].
+    destruct (bal_of r =? -1); [apply rotate_right_left_elems | apply rotate_left_elems].
+Qed.
+
+(* ------------------------------------------------------------------ rotations restore balance
+   node with true balance -2 (left subtree two higher) *)
+Lemma rebalance_m2 : forall i d l r t' hc c,
+  avl l -> avl r -> height r - height l = -2 ->
+  rebalance (N i d (-2) l r) = (t', hc, c) ->
+  avl t' /\ height t' = 1 + height l + hc /\ (hc = 0 \/ hc = -1) /\
+  (bal_of t' = 0 <-> hc = -1) /\ (bal_of l <> 0 -> hc = -1) /\ t' <> E.
+Proof.
+  intros i d l r t' hc c Al Ar Hb.
+  unfold rebalance. rewrite Z.eqb_refl.
+  destruct l as [|q dq bq lq rq].
+  { cbn [height] in Hb. pose proof (height_nonneg r). lia. }
+  cbn [bal_of]. cbn [avl] in Al. destruct Al as (Alq & Arq & Hbq & Rq).
+  cbn [height] in Hb |- *.
+  destruct (bq =? 1) eqn:Eq1.
+  - (* left_right *)
+    destruct rq as [|rr dr br lr rrr].
+    { cbn [height] in Hbq. pose proof (height_nonneg lq). lia. }
+    cbn [avl] in Arq. destruct Arq as (Alr & Arr & Hbr & Rr).
+    cbn [rotate_left_right]. intros HH; inj3 HH.
+    cbn [height] in *. cbn [avl bal_of height].
+    repeat split; try assumption; try lia; try discriminate.
+  - (* right *)
+    cbn [rotate_right]. intros HH; inj3 HH.
+    cbn [avl bal_of height].
+    destruct (bq =? 0) eqn:Eq0; repeat split; try assumption; try lia; try discriminate.
+Qed.
+
+Lemma rebalance_p2 : forall i d l r t' hc c,
+  avl l -> avl r -> height r - height l = 2 ->
+  rebalance (N i d 2 l r) = (t', hc, c) ->
+  avl t' /\ height t' = 1 + height r + hc /\ (hc = 0 \/ hc = -1) /\
+  (bal_of t' = 0 <-> hc = -1) /\ (bal_of r <> 0 -> hc = -1) /\ t' <> E.
+Proof.
+  intros i d l r t' hc c Al Ar Hb.
+  unfold rebalance. change (2 =? -2) with false. cbv iota. rewrite Z.eqb_refl.
+  destruct r as [|q dq bq lq rq].
+  { cbn [height] in Hb. pose proof (height_nonneg l). lia. }
+  cbn [bal_of]. cbn [avl] in Ar. destruct Ar as (Alq & Arq & Hbq & Rq).
+  cbn [height] in Hb |- *.
+  destruct (bq =? -1) eqn:Eq1.
+  - destruct lq as [|rr dr br lr rrr].
+    { cbn [height] in Hbq. pose proof (height_nonneg rq). lia. }
+    cbn [avl] in Alq. destruct Alq as (Alr & Arr & Hbr & Rr).
+    cbn [rotate_right_left]. intros HH; inj3 HH.
+    cbn [height] in *. cbn [avl bal_of height].
+    repeat split; try assumption; try lia; try discriminate.
+  - cbn [rotate_left]. intros HH; inj3 HH.
+    cbn [avl bal_of height].
+    destruct (bq =? 0) eqn:Eq0; repeat split; try assumption; try lia; try discriminate.
+Qed.
+
+(* ------------------------------------------------------------------ sorted lists *)
 Section Proofs.
 Variable rank : elt -> Z.
+Notation irank := (irank rank).
+Notation sorted := (sorted rank).
+Notation sins := (sins rank).
+
+Lemma sorted_app : forall l1 x l2,
+  sorted (l1 ++ x :: l2) <->
+  sorted l1 /\ sorted l2 /\ Forall (fun y => irank y <= irank x) l1 /\ Forall (fun y => irank x <= irank y) l2.
+Proof.
+  induction l1 as [|a l1 IH]; intros x l2; cbn [app AvlSpec.sorted].
+  - split.
+    + intros [H1 H2]. repeat split; auto.
+    + intros (_ & H2 & _ & H4). split; assumption.
+  - rewrite IH, Forall_app, Forall_cons_iff, Forall_cons_iff. split.
+    + intros ((F1 & F2 & F3) & S1 & S2 & F4 & F5). repeat split; assumption.
+    + intros ((F1 & S1) & S2 & (F2 & F4) & F5). repeat split; try assumption.
+      eapply Forall_impl; [|exact F5]. cbv beta. intros; lia.
+Qed.
+
+Lemma sins_app_lt : forall x y l1 l2, irank x < irank y ->
+  sins x (l1 ++ y :: l2) = sins x l1 ++ y :: l2.
+Proof.
+  intros x y l1 l2 H. induction l1 as [|a l1 IH]; cbn [app AvlSpec.sins].
+  - destruct (irank x <? irank y) eqn:C; [reflexivity|lia].
+  - destruct (irank x <? irank a); [reflexivity|]. rewrite IH. reflexivity.
+Qed.
+
+Lemma sins_app_ge : forall x y l1 l2, Forall (fun a => irank a <= irank x) l1 -> irank y <= irank x ->
+  sins x (l1 ++ y :: l2) = l1 ++ y :: sins x l2.
+Proof.
+  intros x y l1 l2 F H. induction l1 as [|a l1 IH]; cbn [app AvlSpec.sins].
+  - destruct (irank x <? irank y) eqn:C; [lia|reflexivity].
+  - apply Forall_cons_iff in F as [Fa F].
+    destruct (irank x <? irank a) eqn:C; [lia|]. rewrite (IH F). reflexivity.
+Qed.
+
+Lemma sins_perm : forall x l, Permutation (x :: l) (sins x l).
+Proof.
+  induction l as [|a l IH]; cbn [AvlSpec.sins]; [apply Permutation_refl|].
+  destruct (irank x <? irank a); [apply Permutation_refl|].
+  eapply Permutation_trans; [apply perm_swap|]. apply perm_skip. exact IH.
+Qed.
+
+Lemma sins_sorted : forall x l, sorted l -> sorted (sins x l).
+Proof.
+  induction l as [|a l IH]; cbn [AvlSpec.sins AvlSpec.sorted]; intros S.
+  - split; [constructor|exact I].
+  - destruct S as [F S]. destruct (irank x <? irank a) eqn:C; cbn [AvlSpec.sorted].
+    + split; [|split; assumption]. constructor; [lia|].
+      eapply Forall_impl; [|exact F]. cbv beta. intros; lia.
+    + split; [|apply IH; exact S].
+      eapply Permutation_Forall; [apply sins_perm|]. constructor; [lia|exact F].
+Qed.
+
+(* ------------------------------------------------------------------ insertion: listing *)
+Lemma retrace_ins_elems : forall t c,
+  exists t' g c', retrace_ins t c = IOk t' g c' /\ elems t' = elems t.
+Proof.
+  intros t c. unfold retrace_ins.
+  destruct ((bal_of t =? -2) || (bal_of t =? 2)).
+  - pose proof (rebalance_elems t) as R. destruct (rebalance t) as [[t' hc] c']. cbn [fst] in R.
+    do 3 eexists. split; [reflexivity|exact R].
+  - destruct (bal_of t =? 0); do 3 eexists; split; reflexivity.
+Qed.
+
+Lemma ins_N : forall dup x id i d b l r,
+  ins rank dup x id (N i d b l r) =
+  let left :=
+    match l with
+    | E => IOk (N i d (b - 1) (N id x 0 E E) r) (is_E r) []
+    | _ => match ins rank dup x id l with
+           | IExists e => IExists e
+           | IOk l' g c => if g then retrace_ins (N i d (b - 1) l' r) c else IOk (N i d b l' r) false c
+           end
+    end in
+  let right :=
+    match r with
+    | E => IOk (N i d (b + 1) l (N id x 0 E E)) (is_E l) []
+    | _ => match ins rank dup x id r with
+           | IExists e => IExists e
+           | IOk r' g c => if g then retrace_ins (N i d (b + 1) l r') c else IOk (N i d b l r') false c
+           end
+    end in
+  match Z.compare (rank x) (rank d) with
+  | Lt => left
+  | Eq => if dup then right else IExists i
+  | Gt => right
+  end.
+Proof. intros. destruct l, r; reflexivity. Qed.
+
+Definition ins_elems_ok (dup : bool) (x : elt) (id : Z) (t : tree) (res : ins_result) : Prop :=
+  match res with
+  | IOk t' _ _ => elems t' = sins (id, x) (elems t) /\
+                  (dup = false -> forall y, In y (elems t) -> irank y <> rank x)
+  | IExists e => dup = false /\ exists d, In (e, d) (elems t) /\ rank d = rank x
+  end.
+
+Lemma ins_elems : forall dup x id t, sorted (elems t) -> ins_elems_ok dup x id t (ins rank dup x id t).
+Proof.
+  intros dup x id. induction t as [|i d b l IHl r IHr]; intros S.
+  - cbn. split; [reflexivity|]. intros _ y [].
+  - rewrite ins_N. cbv zeta. cbn [elems] in S. apply sorted_app in S as (Sl & Sr & Fl & Fr).
+    specialize (IHl Sl). specialize (IHr Sr).
+    assert (LEFT : rank x < rank d -> ins_elems_ok dup x id (N i d b l r)
+       match l with
+       | E => IOk (N i d (b - 1) (N id x 0 E E) r) (is_E r) []
+       | _ => match ins rank dup x id l with
+              | IExists e => IExists e
+              | IOk l' g c => if g then retrace_ins (N i d (b - 1) l' r) c else IOk (N i d b l' r) false c
+              end
+       end).
+    { intros C.
+      assert (NR : forall y, In y (elems r) -> irank y <> rank x).
+      { intros y Hy. rewrite Forall_forall in Fr. specialize (Fr y Hy). unfold AvlSpec.irank in *. cbn [snd] in *. lia. }
+      assert (G : forall l' g c, ins rank dup x id l = IOk l' g c ->
+                  ins_elems_ok dup x id (N i d b l r)
+                    (if g then retrace_ins (N i d (b - 1) l' r) c else IOk (N i d b l' r) false c)).
+      { intros l' g c E1. rewrite E1 in IHl. destruct IHl as [IH1 IH2].
+        assert (EL : elems l' ++ (i, d) :: elems r = sins (id, x) (elems l ++ (i, d) :: elems r)).
+        { rewrite sins_app_lt by (unfold AvlSpec.irank; cbn [snd]; lia). rewrite IH1. reflexivity. }
+        assert (NE : dup = false -> forall y, In y (elems l ++ (i, d) :: elems r) -> irank y <> rank x).
+        { intros Hd y Hy. apply in_app_or in Hy as [Hy|[<-|Hy]].
+          - apply IH2; assumption.
+          - unfold AvlSpec.irank; cbn [snd]; lia.
+          - apply NR; assumption. }
+        destruct g.
+        - destruct (retrace_ins_elems (N i d (b - 1) l' r) c) as (t' & g' & c' & -> & E2).
+          cbn [ins_elems_ok elems]. rewrite E2. cbn [elems]. split; assumption.
+        - cbn [ins_elems_ok elems]. split; assumption. }
+      destruct l as [|li ld lb ll lr].
+      - cbn [ins_elems_ok elems app]. split.
+        + cbn [AvlSpec.sins]. unfold AvlSpec.irank at 1 2. cbn [snd].
+          destruct (rank x <? rank d) eqn:C'; [reflexivity|lia].
+        + intros _ y [<-|Hy]; [unfold AvlSpec.irank; cbn [snd]; lia|apply NR; assumption].
+      - destruct (ins rank dup x id (N li ld lb ll lr)) as [e|l' g c] eqn:E1.
+        + cbn [ins_elems_ok] in *. destruct IHl as [Hd (d0 & Hin & Hr)]. split; [assumption|].
+          exists d0. split; [|assumption]. cbn [elems] in *. apply in_or_app. left. assumption.
+        + apply (G l' g c eq_refl). }
+    assert (RIGHT : rank d <= rank x -> (dup = false -> rank d <> rank x) ->
+       ins_elems_ok dup x id (N i d b l r)
+       match r with
+       | E => IOk (N i d (b + 1) l (N id x 0 E E)) (is_E l) []
+       | _ => match ins rank dup x id r with
+              | IExists e => IExists e
+              | IOk r' g c => if g then retrace_ins (N i d (b + 1) l r') c else IOk (N i d b l r') false c
+              end
+       end).
+    { intros C Cd.
+      assert (FL : Forall (fun a => irank a <= irank (id, x)) (elems l)).
+      { eapply Forall_impl; [|exact Fl]. unfold AvlSpec.irank. cbn [snd]. intros; lia. }
+      assert (NL : dup = false -> forall y, In y (elems l) -> irank y <> rank x).
+      { intros Hd y Hy. rewrite Forall_forall in Fl. specialize (Fl y Hy). specialize (Cd Hd).
+        unfold AvlSpec.irank in *. cbn [snd] in *. lia. }
+      assert (G : forall r' g c, ins rank dup x id r = IOk r' g c ->
+                  ins_elems_ok dup x id (N i d b l r)
+                    (if g then retrace_ins (N i d (b + 1) l r') c else IOk (N i d b l r') false c)).
+      { intros r' g c E1. rewrite E1 in IHr. destruct IHr as [IH1 IH2].
+        assert (EL : elems l ++ (i, d) :: elems r' = sins (id, x) (elems l ++ (i, d) :: elems r)).
+        { rewrite sins_app_ge by (try assumption; unfold AvlSpec.irank; cbn [snd]; lia). rewrite IH1. reflexivity. }
+        assert (NE : dup = false -> forall y, In y (elems l ++ (i, d) :: elems r) -> irank y <> rank x).
+        { intros Hd y Hy. apply in_app_or in Hy as [Hy|[<-|Hy]].
+          - apply NL; assumption.
+          - specialize (Cd Hd). unfold AvlSpec.irank; cbn [snd]; lia.
+          - apply IH2; assumption. }
+        destruct g.
+        - destruct (retrace_ins_elems (N i d (b + 1) l r') c) as (t' & g' & c' & -> & E2).
+          cbn [ins_elems_ok elems]. rewrite E2. cbn [elems]. split; assumption.
+        - cbn [ins_elems_ok elems]. split; assumption. }
+      destruct r as [|ri rd rb rl rr].
+      - cbn [ins_elems_ok elems]. split.
+        + rewrite sins_app_ge by (try assumption; unfold AvlSpec.irank; cbn [snd]; lia). reflexivity.
+        + intros Hd y Hy. apply in_app_or in Hy as [Hy|[<-|[]]].
+          * apply NL; assumption.
+          * specialize (Cd Hd). unfold AvlSpec.irank; cbn [snd]; lia.
+      - destruct (ins rank dup x id (N ri rd rb rl rr)) as [e|r' g c] eqn:E1.
+        + cbn [ins_elems_ok] in *. destruct IHr as [Hd (d0 & Hin & Hr)]. split; [assumption|].
+          exists d0. split; [|assumption]. cbn [elems] in *. apply in_or_app. right. right. assumption.
+        + apply (G r' g c eq_refl). }
+    destruct (Z.compare (rank x) (rank d)) eqn:C.
+    + apply Z.compare_eq in C. destruct dup.
+      * apply RIGHT; [lia|discriminate].
+      * cbn [ins_elems_ok]. split; [reflexivity|]. exists d. split; [|symmetry; assumption].
+        cbn [elems]. apply in_or_app. right. left. reflexivity.
+    + rewrite Z.compare_lt_iff in C. apply LEFT; assumption.
+    + rewrite Z.compare_gt_iff in C. apply RIGHT; [lia|intros _; lia].
+Qed.
+
+(* ------------------------------------------------------------------ insertion: balance *)
+Lemma retrace_ins_left_avl : forall i d b l' r hl0 c t' g c',
+  avl l' -> avl r -> -1 <= b <= 1 -> b = height r - hl0 -> height l' = hl0 + 1 -> bal_of l' <> 0 ->
+  retrace_ins (N i d (b - 1) l' r) c = IOk t' g c' ->
+  avl t' /\ height t' = 1 + Z.max hl0 (height r) + (if g then 1 else 0) /\ (g = true -> bal_of t' <> 0) /\ t' <> E.
+Proof.
+  intros i d b l' r hl0 c t' g c' Al Ar Rb Hb Hl Nz. unfold retrace_ins. cbn [bal_of].
+  destruct (b - 1 =? -2) eqn:E2; cbn [orb].
+  - assert (b - 1 = -2) as -> by lia.
+    destruct (rebalance (N i d (-2) l' r)) as [[t1 hc] c1] eqn:R.
+    apply rebalance_m2 in R; [|assumption|assumption|lia].
+    destruct R as (A1 & H1 & _ & _ & H4 & H5). specialize (H4 Nz).
+    intros HH. injection HH as <- <- <-. repeat split; [assumption|lia|discriminate|assumption].
+  - destruct (b - 1 =? 2) eqn:E3; [lia|].
+    destruct (b - 1 =? 0) eqn:E0; intros HH; injection HH as <- <- <-; cbn [avl bal_of height];
+      repeat split; try assumption; try lia; try discriminate.
+Qed.
+
+Lemma retrace_ins_right_avl : forall i d b l r' hr0 c t' g c',
+  avl l -> avl r' -> -1 <= b <= 1 -> b = hr0 - height l -> height r' = hr0 + 1 -> bal_of r' <> 0 ->
+  retrace_ins (N i d (b + 1) l r') c = IOk t' g c' ->
+  avl t' /\ height t' = 1 + Z.max (height l) hr0 + (if g then 1 else 0) /\ (g = true -> bal_of t' <> 0) /\ t' <> E.
+Proof.
+  intros i d b l r' hr0 c t' g c' Al Ar Rb Hb Hr Nz. unfold retrace_ins. cbn [bal_of].
+  destruct (b + 1 =? -2) eqn:E2; cbn [orb]; [lia|].
+  destruct (b + 1 =? 2) eqn:E3.
+  - assert (b + 1 = 2) as -> by lia.
+    destruct (rebalance (N i d 2 l r')) as [[t1 hc] c1] eqn:R.
+    apply rebalance_p2 in R; [|assumption|assumption|lia].
+    destruct R as (A1 & H1 & _ & _ & H4 & H5). specialize (H4 Nz).
+    intros HH. injection HH as <- <- <-. repeat split; [assumption|lia|discriminate|assumption].
+  - destruct (b + 1 =? 0) eqn:E0; intros HH; injection HH as <- <- <-; cbn [avl bal_of height];
+      repeat split; try assumption; try lia; try discriminate.
+Qed.
+
+Lemma ins_avl : forall dup x id t t' g c,
+  avl t -> ins rank dup x id t = IOk t' g c ->
+  avl t' /\ height t' = height t + (if g then 1 else 0) /\ (g = true -> t <> E -> bal_of t' <> 0) /\ t' <> E.
+Proof.
+  intros dup x id. induction t as [|i d b l IHl r IHr]; intros t' g c A.
+  - cbn [ins]. intros HH. injection HH as <- <- <-. cbn [avl height]. repeat split; try lia; try discriminate.
+    intros _ H; contradiction H; reflexivity.
+  - rewrite ins_N. cbv zeta. cbn [avl] in A. destruct A as (Al & Ar & Hb & Rb).
+    assert (LEFT :
+       match l with
+       | E => IOk (N i d (b - 1) (N id x 0 E E) r) (is_E r) []
+       | _ => match ins rank dup x id l with
+              | IExists e => IExists e
+              | IOk l' g c => if g then retrace_ins (N i d (b - 1) l' r) c else IOk (N i d b l' r) false c
+              end
+       end = IOk t' g c ->
+       avl t' /\ height t' = height (N i d b l r) + (if g then 1 else 0) /\
+       (g = true -> N i d b l r <> E -> bal_of t' <> 0) /\ t' <> E).
+    { destruct l as [|li ld lb ll lr].
+      - intros HH. injection HH as <- <- <-. cbn [height] in Hb. cbn [avl height bal_of].
+        pose proof (height_nonneg r).
+        destruct r as [|ri rd rb rl rr]; cbn [is_E].
+        + cbn [height] in *. repeat split; try lia; try discriminate.
+        + pose proof (height_pos ri rd rb rl rr). cbn [avl] in Ar. repeat split; try tauto; try lia; try discriminate.
+      - destruct (ins rank dup x id (N li ld lb ll lr)) as [e|l' g1 c1] eqn:E1; [discriminate|].
+        destruct (IHl l' g1 c1 Al eq_refl) as (A1 & H1 & B1 & N1).
+        destruct g1.
+        + intros HH. assert (NZ : bal_of l' <> 0) by (apply B1; [reflexivity|discriminate]).
+          apply (retrace_ins_left_avl i d b l' r _ c1 t' g c A1 Ar Rb Hb H1 NZ) in HH.
+          destruct HH as (A2 & H2 & B2 & N2). cbn [height]. repeat split; try assumption.
+          intros G _. apply B2; assumption.
+        + intros HH. injection HH as <- <- <-. cbn [avl height] in *.
+          repeat split; try assumption; try lia; try discriminate. }
+    assert (RIGHT :
+       match r with
+       | E => IOk (N i d (b + 1) l (N id x 0 E E)) (is_E l) []
+       | _ => match ins rank dup x id r with
+              | IExists e => IExists e
+              | IOk r' g c => if g then retrace_ins (N i d (b + 1) l r') c else IOk (N i d b l r') false c
+              end
+       end = IOk t' g c ->
+       avl t' /\ height t' = height (N i d b l r) + (if g then 1 else 0) /\
+       (g = true -> N i d b l r <> E -> bal_of t' <> 0) /\ t' <> E).
+    { destruct r as [|ri rd rb rl rr].
+      - intros HH. injection HH as <- <- <-. cbn [height] in Hb. cbn [avl height bal_of].
+        pose proof (height_nonneg l).
+        destruct l as [|li ld lb ll lr]; cbn [is_E].
+        + cbn [height] in *. repeat split; try lia; try discriminate.
+        + pose proof (height_pos li ld lb ll lr). cbn [avl] in Al. repeat split; try tauto; try lia; try discriminate.
+      - destruct (ins rank dup x id (N ri rd rb rl rr)) as [e|r' g1 c1] eqn:E1; [discriminate|].
+        destruct (IHr r' g1 c1 Ar eq_refl) as (A1 & H1 & B1 & N1).
+        destruct g1.
+        + intros HH. assert (NZ : bal_of r' <> 0) by (apply B1; [reflexivity|discriminate]).
+          apply (retrace_ins_right_avl i d b l r' _ c1 t' g c Al A1 Rb Hb H1 NZ) in HH.
+          destruct HH as (A2 & H2 & B2 & N2). cbn [height]. repeat split; try assumption.
+          intros G _. apply B2; assumption.
+        + intros HH. injection HH as <- <- <-. cbn [avl height] in *.
+          repeat split; try assumption; try lia; try discriminate. }
+    destruct (Z.compare (rank x) (rank d)); [destruct dup; [exact RIGHT|discriminate]|exact LEFT|exact RIGHT].
+Qed.
+
+(* ------------------------------------------------------------------ find *)
+Lemma find_spec : forall x t, sorted (elems t) ->
+  (fst (find rank x t) = None <-> forall y, In y (elems t) -> irank y <> rank x) /\
+  (forall it, fst (find rank x t) = Some it -> In it (elems t) /\ irank it = rank x).
+Proof.
+  intros x. induction t as [|i d b l IHl r IHr]; intros S.
+  - cbn. split; [split; [intros _ y []|reflexivity]|discriminate].
+  - cbn [elems] in *. apply sorted_app in S as (Sl & Sr & Fl & Fr).
+    specialize (IHl Sl). specialize (IHr Sr). rewrite Forall_forall in Fl, Fr.
+    cbn [find]. destruct (Z.compare (rank x) (rank d)) eqn:C.
+    + apply Z.compare_eq in C. cbn [fst]. split.
+      * split; [discriminate|]. intros H. exfalso. apply (H (i, d)).
+        -- apply in_or_app. right. left. reflexivity.
+        -- unfold AvlSpec.irank. cbn [snd]. lia.
+      * intros it [= <-]. split; [apply in_or_app; right; left; reflexivity|].
+        unfold AvlSpec.irank. cbn [snd]. lia.
+    + rewrite Z.compare_lt_iff in C. destruct (find rank x l) as [res lg]. cbn [fst] in *.
+      destruct IHl as [I1 I2]. split.
+      * rewrite I1. split.
+        -- intros H y Hy. apply in_app_or in Hy as [Hy|[<-|Hy]]; [apply H; assumption| |].
+           ++ unfold AvlSpec.irank. cbn [snd]. lia.
+           ++ specialize (Fr y Hy). unfold AvlSpec.irank in *. cbn [snd] in *. lia.
+        -- intros H y Hy. apply H. apply in_or_app. left. assumption.
+      * intros it Hit. destruct (I2 it Hit) as [J1 J2]. split; [apply in_or_app; left|]; assumption.
+    + rewrite Z.compare_gt_iff in C. destruct (find rank x r) as [res lg]. cbn [fst] in *.
+      destruct IHr as [I1 I2]. split.
+      * rewrite I1. split.
+        -- intros H y Hy. apply in_app_or in Hy as [Hy|[<-|Hy]]; [| |apply H; assumption].
+           ++ specialize (Fl y Hy). unfold AvlSpec.irank in *. cbn [snd] in *. lia.
+           ++ unfold AvlSpec.irank. cbn [snd]. lia.
+        -- intros H y Hy. apply H. apply in_or_app. right. right. assumption.
+      * intros it Hit. destruct (I2 it Hit) as [J1 J2]. split; [apply in_or_app; right; right|]; assumption.
+Qed.
+
+Lemma sfind_none : forall x l, sfind rank x l = None <-> forall y, In y l -> irank y <> rank x.
+Proof.
+  intros x l. unfold sfind. split.
+  - intros H y Hy. pose proof (find_none _ _ H y Hy) as H1. cbv beta in H1. lia.
+  - intros H. destruct (List.find (fun y => irank y =? rank x) l) as [y|] eqn:F; [|reflexivity].
+    apply find_some in F as [F1 F2]. specialize (H y F1). lia.
+Qed.
 
 Lemma find_cost : forall x t, Z.of_nat (length (snd (find rank x t))) <= height t.
 Proof.
@@ -19,4 +461,20 @@ Proof.
   - destruct (find rank x l) as [res lg]. cbn [snd length] in *. lia.
   - destruct (find rank x r) as [res lg]. cbn [snd length] in *. lia.
 Qed.
+
+(* the ids logged by find are ids of stored elements, along one root-to-node path *)
+Lemma find_log_path : forall x t i, In i (snd (find rank x t)) -> In i (ids t).
+Proof.
+  intros x. induction t as [|i d b l IHl r IHr]; intros j; cbn [find]; [intros []|].
+  unfold ids in *. cbn [elems]. rewrite map_app. cbn [map fst].
+  destruct (Z.compare (rank x) (rank d)).
+  - cbn [snd]. intros [<-|[]]. apply in_or_app. right. left. reflexivity.
+  - destruct (find rank x l) as [res lg]. cbn [snd] in *. intros [<-|H].
+    + apply in_or_app. right. left. reflexivity.
+    + apply in_or_app. left. apply IHl. assumption.
+  - destruct (find rank x r) as [res lg]. cbn [snd] in *. intros [<-|H].
+    + apply in_or_app. right. left. reflexivity.
+    + apply in_or_app. right. right. apply IHr. assumption.
+Qed.
+
 End Proofs.
